@@ -201,10 +201,69 @@ ILLEGAL = ["01", "00", "1.", "1.e3", "1e", "1e+", "1E-", "1__0", "1_", "1_.5", "
            "1.5e", "1e+_5"]
 
 
+def exact_decimal(fr):
+    """Exact plain decimal text of a non-negative dyadic rational (Fraction)."""
+    n, d = fr.numerator, fr.denominator
+    k = d.bit_length() - 1  # d == 2**k
+    scaled = n * 5 ** k     # n / 2^k == n * 5^k / 10^k
+    digits = str(scaled)
+    if k == 0:
+        return digits
+    digits = digits.rjust(k + 1, "0")
+    return digits[:-k] + "." + digits[-k:]
+
+
+@st.composite
+def midpoint_literal(draw):
+    """Decimal texts at and right next to the midpoint between two adjacent doubles (needs every digit to round)."""
+    from fractions import Fraction
+    x = abs(draw(V.finite_doubles()))
+    if x > 1e300:
+        x = 1e300
+    y = math.nextafter(x, math.inf)
+    mid = (Fraction(x) + Fraction(y)) / 2
+    text = exact_decimal(mid)
+    if "." not in text:
+        text += ".0"
+    c = draw(st.integers(0, 4))
+    if c == 1:
+        text += "0" * draw(st.integers(0, 30)) + "1"          # just above the tie
+    elif c == 2:
+        # just below the tie: decrement the last non-zero digit, then 9s
+        t = text.rstrip("0")
+        if t[-1] != ".":
+            text = t[:-1] + str(int(t[-1]) - 1) + "9" * draw(st.integers(1, 30))
+    elif c == 3:
+        text += "0" * draw(st.integers(1, 40))
+    elif c == 4 and len(text) > 60:
+        # truncation at some digit position inside the expansion
+        cut = draw(st.integers(20, len(text) - 1))
+        text = text[:cut] if text[cut - 1] != "." else text[:cut + 1]
+    # optionally move the decimal point with an exponent
+    if draw(st.booleans()) and "." in text:
+        ip, fp = text.split(".")
+        sh = draw(st.integers(-5, 5))
+        text = f"{ip}.{fp}e{sh}" if sh else text
+        if sh:
+            # value changed by 10^sh: compensate by shifting digits so the value stays the same
+            digits = ip + fp
+            point = len(ip) - sh
+            if point <= 0:
+                digits = "0" * (1 - point) + digits
+                point = 1
+            if point >= len(digits):
+                digits = digits + "0" * (point - len(digits) + 1)
+            text = (digits[:point].lstrip("0") or "0") + "." + digits[point:] + f"e{sh}"
+    return text
+
+
 @st.composite
 def literal_case(draw):
-    if draw(st.integers(0, 9)) == 0:
+    k = draw(st.integers(0, 11))
+    if k == 0:
         return {"text": draw(st.sampled_from(ILLEGAL)), "legal": False}
+    if k <= 3:
+        return {"text": draw(midpoint_literal()), "legal": True, "midpoint": True}
     return {"text": draw(literal_text()), "legal": True}
 
 
@@ -255,7 +314,7 @@ def check_literal(case):
     if not (V.is_num(got) and got["n"] == V.f2h(exp)):
         raise Violation("literal-misrounded", f"literal {text[:80]!r} denotes {exp!r} ({V.f2h(exp)}) but evaluated to {V.show(got)} ({got})")
     nt = len(plain) >= 16 or interesting(exp) or "_" in text or exp == 0
-    return {"nontrivial": nt, "labels": ["underscore"] if "_" in text else [], "sample": text[:80]}
+    return {"nontrivial": nt, "labels": (["underscore"] if "_" in text else []) + (["midpoint"] if case.get("midpoint") else []), "sample": text[:80]}
 
 
 # ---------------------------------------------------------------------------------------------
